@@ -60,6 +60,7 @@ type Bad struct {
 	mu    sync.RWMutex
 	table map[int]int
 	n     int
+	nodes map[int]*item
 }
 
 // Len reads the table without the lock.
